@@ -1,6 +1,7 @@
 (* proto.ml — glue between the textual case protocol and the extracted Coq model.
    Trusted: parsing, printing, int <-> Coq Z conversion. *)
 open Model
+type string = Stdlib.String.t  (* Model defines Coq's string inductive; keep OCaml's name *)
 
 let rec pos_of_int (n : int) : positive =
   if n = 1 then XH
